@@ -49,6 +49,12 @@ DUNDERS = ['__class__', '__len__', '__dict__', '__x']
 
 
 def gen_lit(draw, depth=2):
+    if depth == 2 and draw(st.sampled_from(range(25))) == 0:
+        # a literal nested deeper than reprlib's default level limit
+        r = ['i', draw(st.integers(0, 9))]
+        for _ in range(draw(st.integers(6, 9))):
+            r = [draw(st.sampled_from(['list', 'tuple', 'list'])), [r]]
+        return r
     k = draw(st.integers(0, 13))
     if k <= 1:
         return ['i', draw(st.integers(-5, 12))]
